@@ -76,6 +76,11 @@ def handle : Handler
       match dasguptaCost (← bool? deg) (← bool? norm) (← n.toNat?) (← ratListList? m) D with
       | .error e => some (showErr e)
       | .ok c => some ("ok " ++ showRat c)) "bad-args"
+  | "c08.dasgupta_score", [n, m, d, deg] => some <| Option.getD (do
+      let D ← dendro? d
+      match dasguptaScore (← bool? deg) (← n.toNat?) (← ratListList? m) D with
+      | .error e => some (showErr e)
+      | .ok c => some ("ok " ++ showRat c)) "bad-args"
   | "c08.tsd", [n, m, d, deg, norm] => some <| Option.getD (do
       let D ← dendro? d
       match tsdTerms (← bool? deg) (← n.toNat?) (← ratListList? m) D with
